@@ -126,6 +126,56 @@ class ChainOrder(Unit):
             ctx.ensure("C17 a chain inverts its members last to first: inv(y) = t_1^-1(...t_n^-1(y))", toz(ret) == B(n, x))
 
 
+class ChainInit(Unit):
+    """chains built by the real Chain.init - flat and with a nested chain in the first, middle and last position - apply their members first to last
+    and invert them last to first (members are opaque transforms, so only the ORDER is observable)"""
+    name = "Chain.init (order, nested chains)"
+    target = f"{BASE}::Chain.init"
+    props = ("C17",)
+
+    def opts(self, cfg):
+        return {"leaf_attr": member_attr}
+
+    def configs(self):
+        yield "flat (t0, t1, t2)", dict(shape=[0, 1, 2])
+        yield "nested first ((t0, t1), t2)", dict(shape=[[0, 1], 2])
+        yield "nested middle (t0, (t1,), t2)", dict(shape=[0, [1], 2])
+        yield "nested last (t0, (t1, t2))", dict(shape=[0, [1, 2]])
+        yield "two nested ((t0, t1), (t2, t3))", dict(shape=[[0, 1], [2, 3]])
+
+    def run(self, ctx):
+        ex, cfg = ctx.ex, ctx.cfg
+        cref = ex.module_global(ctx.repo.module(BASE), "Chain")
+        init = ex.getattr(cref, "init")
+        T = lambda i: z3.Const(f"t{i}", Leaf)
+
+        def build(shape):
+            members, flat = [], []
+            for it in shape:
+                if isinstance(it, list):
+                    sub, subflat = build(it)
+                    members.append(ex.call(init, sub, {}))
+                    flat += subflat
+                else:
+                    members.append(T(it))
+                    flat.append(it)
+            return members, flat
+        members, flat = build(cfg["shape"])
+        chain = ex.call(init, members, {})
+        x = z3.Const("x", Leaf)
+        want = x
+        for i in flat:
+            want = APPLY(T(i), want)
+        got = ex.call(ex.getattr(chain, "apply"), [x], {})
+        ctx.ensure("C17 a chain (nested chains included) applies its members first to last", toz(got) == want)
+        y = z3.Const("y", Leaf)
+        wanti = y
+        for i in reversed(flat):
+            wanti = INVF(T(i), wanti)
+        goti = ex.call(ex.getattr(chain, "inv"), [y], {})
+        ctx.ensure("C17 a chain (nested chains included) inverts its members last to first", toz(goti) == wanti)
+
+
 class ChainLemma(Unit):
     name = "lemma: Chain inv(apply(x)) = x"
     target = None
@@ -229,7 +279,7 @@ class ExtendFill(Unit):
 DenormAlgebra.replay = lambda self, label, clause, probes, model: {"kind": "pure", "which": "denormalize", "probes": probes}
 
 
-UNITS = [DenormInit(), DenormAlgebra(), ChainOrder("apply"), ChainOrder("inv"), ChainLemma(), ExpIdentity("Exponential"), ExpIdentity("Identity"), SharedRoundTrip(), ExtendFill()]
+UNITS = [DenormInit(), DenormAlgebra(), ChainOrder("apply"), ChainOrder("inv"), ChainLemma(), ChainInit(), ExpIdentity("Exponential"), ExpIdentity("Identity"), SharedRoundTrip(), ExtendFill()]
 EXTRA = dict(assumptions=["floats as reals: inv(apply(x)) = x holds exactly (the statement allows floating-point rounding)",
                           "every Chain member is invertible on its domain (hypothesis of the chain lemma); induction over the chain length is the trusted meta-step",
                           "Extend is analysed on one representative nested tree (structure enumerated, values symbolic); tree_extend's prefix broadcast is an assumed contract"])
